@@ -30,6 +30,11 @@ KindCase(k, r) ==
 ASSUME \A k \in Kinds, r \in 1..3 : Accepts(KindCase(k, r)) <=> OkKind(k)
 ASSUME \A k \in Kinds, r \in 1..3 : Reads(k) => (KindCase(k, r).decl = "json" /\ ~KindCase(k, r).excludeBody)
 
+(* the same responses validated and read back CONCURRENTLY (one goroutine per response, started together, many rounds): *)
+(* every goroutine must see what it sees alone -- its own verdict, its own bytes                                       *)
+EmitConc == hist = <<>> =>
+   CSVWrite("%1$s", <<ToJson([kinds |-> kind, resps |-> [r \in R |-> KindCase(kind[r], r)], steps |-> <<>>, conc |-> TRUE])>>,
+            "cases_h.ndjson")
 Emit == (Complete \/ ~ENABLED Next) =>
    CSVWrite("%1$s", <<ToJson([kinds |-> kind, resps |-> [r \in R |-> KindCase(kind[r], r)],
                               steps |-> [i \in DOMAIN hist |-> hist[i].c]])>>, "cases_h.ndjson")
